@@ -139,6 +139,25 @@ def mutations(data: bytes, level="full"):
             yield (f"nonascii@{i}={v:#x}", data[:i] + bytes([v]) + data[i + 1:])
 
 
+def mutations2(data: bytes):
+    """2-mutation neighbourhood restricted to structural bytes: every pair of structural positions x a
+    16-value set each (thorough tier)"""
+    structural, _, _ = structure(data)
+    pos = sorted(p for p in structural if p < len(data))
+
+    def vals(b):
+        return sorted({0, 1, 2, 3, 4, 0x0F, 0x10, 0x7F, 0x80, 0xC0, 0xFE, 0xFF, b ^ 1, b ^ 0x80, (b + 1) & 0xFF, (b - 1) & 0xFF} - {b})
+
+    for a in range(len(pos)):
+        i = pos[a]
+        for va in vals(data[i]):
+            d1 = data[:i] + bytes([va]) + data[i + 1:]
+            for b in range(a + 1, len(pos)):
+                j = pos[b]
+                for vb in vals(data[j]):
+                    yield (f"byte@{i}={va:#x}+byte@{j}={vb:#x}", d1[:j] + bytes([vb]) + d1[j + 1:])
+
+
 def short_strings(maxlen=2):
     yield b""
     for a in range(256):
